@@ -208,12 +208,74 @@ func runC10(c *core.Ctx) {
 	}
 	c.Res.Assume("operations are recorded at the client boundary; logical time is one process-wide atomic counter")
 	c.Res.Assume("the removal callback is not part of the linearizability model; it is checked by conservation on the large runs")
+	c10DumpProbe(c.Res)
 	switch c.Mode {
 	case "small":
 		c10Small(c)
 	case "large":
 		c10Large(c)
 	}
+}
+
+// c10DumpProbe: whatever the FORMAT of Dump is (it is compared exactly only while it has the shape the harness
+// understands), a dump is a function of the content: with distinctive keys and values, the text names every live entry
+// (by its key or by its value) and no value that was overwritten, deleted or evicted. A sequential probe, once per process.
+func c10DumpProbe(res *core.Result) {
+	defer func() {
+		if r := recover(); r != nil {
+			res.Violate("C10|dump-panics|sequential", fmt.Sprintf("Dump() on a four-entry cache panicked: %v", r), nil)
+		}
+	}()
+	l := valid.NewLRU(4)
+	tok := func(i int) (string, string) { return fmt.Sprintf("key-%d-qzk", i), fmt.Sprintf("val-%d-jxv", i) }
+	live := map[int]string{} // key number -> current value
+	dead := []string{}
+	check := func(step string) {
+		d := l.Dump()
+		res.Count("dump_content_probes")
+		for i, v := range live {
+			k, _ := tok(i)
+			if !strings.Contains(d, k) && !strings.Contains(d, v) {
+				res.Violate("C10|dump-omits-live-entry|sequential", fmt.Sprintf("%s: Dump() = %q names neither key %q nor value %q of a live entry (Load hits it)", step, trunc(d, 300), k, v), nil)
+				return
+			}
+		}
+		for _, v := range dead {
+			if strings.Contains(d, v) {
+				res.Violate("C10|dump-shows-removed-value|sequential", fmt.Sprintf("%s: Dump() = %q still shows %q, a value that was deleted, evicted or overwritten", step, trunc(d, 300), v), nil)
+				return
+			}
+		}
+	}
+	for i := 1; i <= 4; i++ {
+		k, v := tok(i)
+		l.Store(k, v)
+		live[i] = v
+		check(fmt.Sprintf("after %d stores", i))
+	}
+	k2, v2 := tok(2)
+	l.Delete(k2)
+	delete(live, 2)
+	dead = append(dead, v2)
+	check("after Delete of the second key")
+	for i := 5; i <= 7; i++ { // 5 fills the cache again, 6 and 7 evict the two least recently used entries (1 and 3)
+		k, v := tok(i)
+		l.Store(k, v)
+		live[i] = v
+	}
+	for _, i := range []int{1, 3} {
+		k, v := tok(i)
+		if _, ok := l.Load(k); !ok {
+			delete(live, i)
+			dead = append(dead, v)
+		}
+	}
+	check("after two evictions")
+	k4, v4 := tok(4)
+	l.Store(k4, "val-44-jxv")
+	live[4] = "val-44-jxv"
+	dead = append(dead, v4)
+	check("after overwriting a value")
 }
 
 func c10Small(c *core.Ctx) {
